@@ -34,7 +34,7 @@ ABBR = {
     'void': 'v', '_Bool': 'b', 'char': 'c', 'unsigned char': 'uc', 'signed char': 'sc',
     'short': 's', 'unsigned short': 'us', 'int': 'i', 'unsigned int': 'u', 'long': 'l',
     'unsigned long': 'ul', 'long long': 'll', 'unsigned long long': 'ull', 'Elem': 'E',
-    'struct Alloc': 'A', 'struct InputIt': 'II', 'struct FwdIt': 'FI', 'struct Gen': 'G',
+    'struct Alloc': 'A', 'struct InputIt': 'II', 'struct FwdIt': 'FI', 'struct Gen': 'G', 'struct Pred': 'P',
     'struct IList': 'IL',
 }
 
